@@ -421,7 +421,7 @@ def _register_function(name):
     clsname = STD[name][0]
     funcs = [F + "FunctionExtension.evaluate", F + "FunctionExtension._unpack_node_lists", f"jsonpath.function_extensions.{name}:{clsname}.__call__"]
 
-    @contract(f"FunctionExtension.evaluate[{name}]==spec", ("C02", "C09"), funcs)
+    @contract(f"FunctionExtension.evaluate[{name}]==spec", ("C02", "C09"), funcs, replay=("function_replay", [name]))
     def _c(ctx, name=name):
         mk = _function_setup(ctx, name)
         ctx.equiv(
